@@ -383,6 +383,19 @@ func fuzzSeeds(f *testing.F, add func(data []byte)) {
 
 // reportFuzz runs the shared oracle and, on a violation, writes the case as a replay envelope for the driver.
 func reportFuzz(t *testing.T, c *c10Case) {
+	// With a threshold near 0 every word is a q-gram and candidate search is quadratic in the text sizes: tens of
+	// seconds for a few kilobytes, which the fuzzing coordinator takes for a hung worker. Low thresholds are therefore
+	// fuzzed with short texts only (a cost limit, stated in DESIGN.md; the rapid part does the same).
+	if c.Thr < 0.3 {
+		if len(c.Input) > 600 {
+			c.Input = c.Input[:600]
+		}
+		for i := range c.Docs {
+			if len(c.Docs[i].Text) > 600 {
+				c.Docs[i].Text = c.Docs[i].Text[:600]
+			}
+		}
+	}
 	o := lib.SafeCheck(c10Check, c)
 	if o.Violation == "" {
 		return
